@@ -30,6 +30,10 @@ fn replay_case(case: &Value) -> bool {
     match case["kind"].as_str().unwrap_or("") {
         "program" | "parse" => {
             let text = case["text"].as_str().unwrap_or("");
+            if let Some(before) = case.get("run_before_on_the_same_thread").and_then(|b| b.as_str()) {
+                println!("run before, on the same thread:\n{before}");
+                let _ = core::run_text(before, case["stdlib"].as_bool().unwrap_or(true), core::QUICK_FUEL);
+            }
             println!("program:\n{text}");
             let out = core::run_text(text, case["stdlib"].as_bool().unwrap_or(true), core::QUICK_FUEL);
             match &out {
@@ -158,6 +162,25 @@ fn replay_case(case: &Value) -> bool {
             let mut names: Vec<String> = interp.verif_names().iter().map(|s| s.to_string()).collect();
             names.sort();
             println!("top-level names: {names:?}");
+        }
+        "string_after_string" => {
+            // the earlier string is indexed and dropped, the later one made right after it and indexed everywhere
+            let f = match eval("f := (s: string, i: int) -> any { return s[i] }") {
+                Ok(Variable::Function(f)) => f,
+                _ => return true,
+            };
+            let run = |s: &str| {
+                let v = Variable::String(std::sync::Arc::from(s));
+                let k = s.chars().count() as i64;
+                for i in -k - 1..=k {
+                    let r = f.clone().create_call(vec![v.clone(), Variable::Int(i)]).map(|c| c.exec());
+                    println!("  {s:?}[{i}] => {}", match r { Ok(Ok(v)) => canon_typed(&v), Ok(Err(e)) => format!("{e:?}"), Err(e) => format!("{e:?}") });
+                }
+            };
+            if let Some(before) = case["indexed_just_before_and_dropped"].as_str().filter(|b| !b.is_empty()) {
+                run(before);
+            }
+            run(case["string"].as_str().unwrap_or(""));
         }
         other => {
             println!("case of kind `{other}`: re-run the check to re-evaluate it; recorded data:");
